@@ -11,11 +11,11 @@ func suiteC20(r *Run) {
 	r.Rule = "in-process streams of every kind driven by quiescence-sequenced scripts in which one side never receives: client sends with a handler that never calls RecvMsg, handler sends (with and without pending headers) with a client that never calls RecvMsg; plus random scripts. Counted: sends that complete while the peer has received k messages. Non-trivial: a send was observed blocked; distinct by script."
 	r.Assumptions = append(r.Assumptions, "goroutine park states read from runtime.Stack identify blocked operations")
 	rng := r.Rng
-	n := r.Budget(40, 1500)
+	n := r.Budget(300, 6000)
 	for i := 0; i < n; i++ {
 		kind := []string{"cstream", "bidi", "sstream"}[i%3]
 		o := isOpts{steps: 6 + rng.Intn(8), allowCancel: false}
-		mode := i % 4
+		mode := i % 6
 		switch mode {
 		case 0:
 			o.noServerRecv, o.sendHeavy = true, true
@@ -23,19 +23,26 @@ func suiteC20(r *Run) {
 			o.noClientRecv = true
 		case 2:
 			o.noServerRecv, o.noClientRecv = true, true
+		case 4, 5:
+			// the client receives a few messages while the handler keeps sending, then stalls
+			o.hSendHeavy, o.noServerRecv = true, mode == 5
+			o.steps = 10 + rng.Intn(10)
 		}
 		sc := runInprocScript(rng, kind, o)
 		// oracle: a sender never runs ahead of its receiver by more than one buffered message
 		cSendsDone, hRecvs := 0, 0
-		hSendsDone, cRecvFrames := 0, 0
+		hSendsDone, cRecvFrames, headerCalls := 0, 0, 0
 		sawBlocked := false
 		done := false
 		pendingSend := map[string]bool{}
 		for _, st := range sc.steps {
 			if st.op == "send" {
 				pendingSend[st.actor] = true
-			} else if st.actor == "cs" {
-				pendingSend["cs"] = false
+			} else if st.actor == "cs" || st.actor == "h" {
+				pendingSend[st.actor] = false
+			}
+			if st.actor == "cr" && st.op == "header" {
+				headerCalls = 1 // the first Header() may dequeue (peek) one data frame
 			}
 			if st.actor == "env" || (st.actor == "h" && st.op == "return") {
 				done = true // the peer finishes / the context ends: sends may now complete
@@ -45,9 +52,12 @@ func suiteC20(r *Run) {
 				case e == "cs:ok" && !done && pendingSend["cs"]:
 					cSendsDone++
 					pendingSend["cs"] = false
+				case e == "h:ok" && !done && pendingSend["h"]:
+					hSendsDone++
+					pendingSend["h"] = false
 				case strings.HasPrefix(e, "h:msg:"):
 					hRecvs++
-				case strings.HasPrefix(e, "cr:msg:") || strings.HasPrefix(e, "cr:md:"):
+				case strings.HasPrefix(e, "cr:msg:"):
 					cRecvFrames++
 				}
 			}
@@ -56,14 +66,17 @@ func suiteC20(r *Run) {
 					sawBlocked = true
 				}
 			}
+			if !done && sc.kind != "cstream" && hSendsDone > cRecvFrames+headerCalls+1 {
+				r.Violate("inproc/backpressure/handler-runs-ahead", "a sender cannot run ahead of its receiver by more than one buffered message per direction",
+					sprintf("%d handler sends completed while the client received %d messages (Header() calls that may have peeked one: %d)", hSendsDone, cRecvFrames, headerCalls), sc.desc(), sc.line())
+				break
+			}
 			if !done && cSendsDone > hRecvs+1 {
 				r.Violate("inproc/backpressure/client-runs-ahead", "a sender cannot run ahead of its receiver by more than one buffered message per direction",
 					sprintf("%d client sends completed while the handler received %d messages", cSendsDone, hRecvs), sc.desc(), sc.line())
 				break
 			}
 		}
-		_ = hSendsDone
-		_ = cRecvFrames
 		// count closesend "cs:ok" as a send? closesend also reports cs:ok: recount precisely
 		r.Op(sc.line(), "observed")
 		r.Eval(sc.line(), sawBlocked)
